@@ -14,6 +14,7 @@ RULE = ('exhaustive enumeration of (n, k, backing) with 0<=n<=N, every k in [-1,
         'pipelines (C01 alphabet) split for every k against the reference value list. Oracle: arithmetic partition '
         'predicate over self-describing examples. Non-trivial = k>=2 and n mod k != 0; distinct by (n, k, backing).')
 ASSUMPTIONS = [
+    'the statement holds in an interpreter started with -O as well (n <= 6, every k, checked in a child process)',
     'shard counts and indices may be numpy integers (np.int64, np.int32, np.uint8) as well as Python ints',
     'examples are self-describing tuples, so provenance (loss, duplication, order) is decidable from values alone',
     'a shard count outside 1..n must raise an Exception (the code raises ValueError); n=0 therefore rejects every k',
@@ -187,7 +188,60 @@ def check_big(n, k):
             raise Violation('shard-vs-split', f'list n={n} k={k} i={i}')
 
 
+OPTIMISED_SCRIPT = r'''
+import json, sys
+import lazy_dataset
+assert True or sys.exit("asserts are on")
+out = []
+for n in range(0, 7):
+    ds = lazy_dataset.new({f"k{i}": ("s", i) for i in range(n)})
+    for k in range(-1, n + 3):
+        valid = 1 <= k <= n
+        for how in ("split", "shard"):
+            try:
+                got = [list(x) for x in ds.split(k)] if how == "split" else [list(ds.shard(k, 0))]
+                status = "ok"
+            except Exception as e:
+                got, status = None, "raised " + type(e).__name__
+            if valid and status != "ok":
+                out.append([n, k, how, "valid count refused: " + status])
+            if not valid and status == "ok":
+                out.append([n, k, how, "invalid count accepted: " + repr(got)])
+            if valid and status == "ok" and how == "split":
+                flat = [e for x in got for e in x]
+                sizes = [len(x) for x in got]
+                if flat != [("s", i) for i in range(n)] or len(got) != k or max(sizes) - min(sizes) > 1:
+                    out.append([n, k, how, "not a balanced partition: " + repr(got)])
+print(json.dumps({"optimised": not __debug__, "problems": out}))
+'''
+
+
+def check_optimised():
+    """The same statement in an interpreter started with -O (assert statements are compiled away there): validation
+    that lives in assert statements silently disappears."""
+    import json
+    import os
+    import subprocess
+    import sys
+    from ..common import REPO
+    env = dict(os.environ, PYTHONPATH=str(REPO))
+    r = subprocess.run([sys.executable, '-O', '-c', OPTIMISED_SCRIPT], env=env, capture_output=True, text=True,
+                       timeout=600)
+    lines = [l for l in r.stdout.splitlines() if l.startswith('{')]
+    if r.returncode != 0 or not lines:
+        raise RuntimeError(f'harness: python -O child failed: {r.stderr[-500:]}')
+    res = json.loads(lines[-1])
+    if not res['optimised']:
+        raise RuntimeError('harness: the child did not run with -O')
+    if res['problems']:
+        n, k, how, what = res['problems'][0]
+        raise Violation('optimised-mode|' + what.split(':')[0].replace(' ', '-'),
+                        f'python -O: dict-backed n={n} {how}({k}): {what} ({len(res["problems"])} problems in all)')
+
+
 def run_case(case):
+    if case.get('optimised'):
+        return check_optimised()
     if case.get('big'):
         return check_big(case['n'], case['k'])
     try:
@@ -295,6 +349,15 @@ def run_shard(tier, idx, nshards, rec, known):
                     out.violation = (case, v.sig, v.detail)
                     return [out]
             rec.case(case, True, ['valid', 'big-product'], size=n)
+    if idx == 3 % nshards:
+        case = {'optimised': True}
+        try:
+            check_optimised()
+        except Violation as v:
+            if not known.match(v.sig):
+                out.violation = (case, v.sig, v.detail)
+                return [out]
+        rec.case(case, True, ['python -O'], size=6)
     progcheck.setup_process()
 
     def one(case):
